@@ -14,8 +14,8 @@
 (***************************************************************************)
 EXTENDS Naturals, Sequences, FiniteSets, TLC, FiniteSetsExt, Functions
 
-CONSTANT Tier      \* "quick": URIs within two component deviations of a registered URI / glob instance
-                   \* "thorough": the full product of URI components
+CONSTANT Tier      \* URIs within two component deviations of a registered URI / glob instance;
+                   \* "thorough": larger component domains (three ports, four paths, three queries)
 
 U(s, ui, h, p, pa, q, f) == [scheme |-> s, ui |-> ui, host |-> h, port |-> p, path |-> pa, query |-> q, frag |-> f]
 
@@ -141,7 +141,9 @@ Dev2(b) == UNION {Dev1(x) : x \in Dev1(b)}
 Near1(reg) == UNION {Dev1(b) : b \in Bases(reg)}
 Near2(reg) == UNION {Dev2(b) : b \in Bases(reg)}
 
-URIsFor(reg) == IF Tier = "quick" THEN Near2(reg) ELSE AllURIs
+\* thorough: the same two-deviation neighbourhood over the larger component domains (the full product of URI components is 2 * 10^6 cases
+\* per run, which the monitor cannot read back in reasonable time)
+URIsFor(reg) == Near2(reg)
 
 CasesOf(reg) ==
   {[reg |-> reg, uri |-> u, rtype |-> t, defect |-> "none"] : u \in URIsFor(reg), t \in RTypes}
